@@ -973,6 +973,32 @@ pub fn run(suite: &str, thorough: bool, seed: u64, shard: usize, nshards: usize,
                 ];
                 em.case((3000000 + idx) as u64, crate::store_ops::history_case(&ops, &dir));
             }
+            // two contents with the SAME tree, ranges included, that differ in a recovered syntax error only
+            // (a stray `;`, a stray `,`, a blank): replacing one by the other must replace the diagnostics too
+            {
+                let variants = [
+                    "package p;\ninterface A { void f(in Q q); ; }\n",
+                    "package p;\ninterface A { void f(in Q q);   }\n",
+                    "package p;\ninterface A { void f(in Q q); , }\n",
+                ];
+                for x in 0..3usize {
+                    for y in 0..3usize {
+                        if x == y {
+                            continue;
+                        }
+                        idx += 1;
+                        if !mine(idx) {
+                            continue;
+                        }
+                        let ops = vec![
+                            HOp::Add("i1".to_owned(), variants[x].to_owned()),
+                            HOp::Validate,
+                            HOp::Add("i1".to_owned(), variants[y].to_owned()),
+                        ];
+                        em.case((4000000 + idx) as u64, crate::store_ops::history_case(&ops, &dir));
+                    }
+                }
+            }
             // random long histories over generated projects
             let n = share(if thorough { 3000 } else { 60 });
             for _ in 0..n {
@@ -1277,6 +1303,26 @@ pub fn run(suite: &str, thorough: bool, seed: u64, shard: usize, nshards: usize,
         }
         // C03: documents that are malformed by construction
         "malformed" => {
+            // forms just outside the grammar, fixed: an import without a dot, an empty package, a name ending in a dot,
+            // a number where a name must stand — each in a few layouts
+            if shard == 0 {
+                for (k, t) in [
+                    "package p;\nimport Foo;\ninterface I {}\n",
+                    "package p;\nimport /*c*/ Foo ;\ninterface I {}\n",
+                    "package p;\nimport\n   Foo;\nparcelable P { int x; }\n",
+                    "package p;\nimport a.b.;\ninterface I {}\n",
+                    "package ;\ninterface I {}\n",
+                    "package p.;\ninterface I {}\n",
+                    "package p;\ninterface 1I {}\n",
+                    "package p;\ninterface I { void f() = 0x1F; }\n",
+                    "package p;\ninterface I { void f() = 1_000; }\n",
+                ]
+                .iter()
+                .enumerate()
+                {
+                    em.case(910000 + k as u64, parse_case(&vec![("f".to_owned(), (*t).to_owned())], vec![("verdict", Json::s("bad")), ("how", Json::s("just outside the grammar"))]));
+                }
+            }
             let n = share(if thorough { 6000 } else { 150 });
             let words: Vec<&str> = vec![
                 "package", "import", "interface", "parcelable", "enum", "oneway", "const", "inout", "in", "out", "void",
